@@ -2,6 +2,7 @@
 
 pub mod bytecode;
 pub mod codecs;
+pub mod replay;
 pub mod sign;
 pub mod crypto;
 pub mod lock;
@@ -20,6 +21,7 @@ pub fn dispatch(driver: &str, args: &Args) -> i32 {
         "stateread" => vmops::main_stateread(args),
         "bytecode" => bytecode::main(args),
         "codecs" => codecs::main(args),
+        "replay" => replay::main(args),
         "sign" => sign::main(args),
         "crypto" => crypto::main(args),
         "lock" => lock::main(args),
